@@ -112,6 +112,11 @@ def pick_version(r, have, res):
         return f"{a + r.choice([-1, 1, 2])}.{b}.{c}" if a > 0 else f"{a + 1}.{b}.{c}"
     if k < 0.87:
         res.dist("req:malformed")
+        if r.random() < 0.35:
+            # the provider's own version followed by text that is not a '-' suffix: malformed although it
+            # starts with a compatible version (seeded C14-9: a strncmp fast path in should_enable)
+            res.dist("req:malformed-own-version-prefix")
+            return have + r.choice(["rc1", "x", " beta", "a.1", "_1", ".x", "+"])
         return r.choice(["", "1", "1.0", "x.y.z", "1.0.x", "1..", "-1.0.0", "1.0.0.0.0x", "1.2.3c",
                          str(a) + "." + str(b), structured_version(r)[:40]])
     res.dist("req:odd-but-parsable")
